@@ -536,13 +536,14 @@ func GenAdmissionScenario(t *rapid.T, st *Stats, full bool) (*Scenario, admitInf
 // C14 / C15: snapshots, holder payouts, developer rewards, one-time adjustments
 
 type stakeInfo struct {
-	Snapshots  int  `json:"snapshots"`
-	Paid       int  `json:"paid_addresses"`
-	MinBinds   int  `json:"min_binds"`
-	OverCap    bool `json:"over_cap"`
-	ZeroRate   bool `json:"zero_rate_asset"`
-	Unrated    bool `json:"unrated_snapshot"`
-	PrevGraded int  `json:"graded_block_right_before_snapshot"`
+	Snapshots      int  `json:"snapshots"`
+	Paid           int  `json:"paid_addresses"`
+	MinBinds       int  `json:"min_binds"`
+	OverCap        bool `json:"over_cap"`
+	ZeroRate       bool `json:"zero_rate_asset"`
+	Unrated        bool `json:"unrated_snapshot"`
+	PrevGraded     int  `json:"graded_block_right_before_snapshot"`
+	V202AtSnapshot bool `json:"v202_at_a_snapshot_height,omitempty"`
 }
 
 // GenStakingScenario: 2.0.2+ chain crossing 2-3 snapshot heights with balance
@@ -552,7 +553,17 @@ func GenStakingScenario(t *rapid.T, st *Stats) (*Scenario, stakeInfo) {
 	k := rapid.IntRange(5, 8).Draw(t, "k")
 	lead := rapid.IntRange(5, 9).Draw(t, "lead")
 	start := uint32(144*k - lead)
-	w := NewWorld(t, ModernEra(start), 40)
+	era := ModernEra(start)
+	nsnap := rapid.IntRange(2, 3).Draw(t, "nsnap")
+	// one chain in four has the 2.0.2 activation exactly on its second or third snapshot height:
+	// the first payout under the 2.0.2 valuation rules (zero-rate assets skipped, most recent
+	// earlier rates for an ungraded block) happens at the activation height itself
+	if rapid.IntRange(0, 3).Draw(t, "v202AtSnapshot") == 0 {
+		era.V202 = uint32(144 * (k + rapid.IntRange(1, nsnap-1).Draw(t, "v202Snap")))
+		era.OneWaySmall = era.V202
+		info.V202AtSnapshot = true
+	}
+	w := NewWorld(t, era, 40)
 	miners := w.Actors[:40]
 	grade := func() []Entry { w.JitterPrices(10); return w.OPRSet(OPRSetOpts{N: 26, Miners: miners}) }
 	w.Commit(&Block{OPR: grade()})
@@ -575,7 +586,6 @@ func GenStakingScenario(t *rapid.T, st *Stats) (*Scenario, stakeInfo) {
 	}
 	w.Commit(&Block{OPR: grade()})
 	w.Price[0] = basePrices[0]
-	nsnap := rapid.IntRange(2, 3).Draw(t, "nsnap")
 	for s := 0; s < nsnap; s++ {
 		snapH := uint32(144 * (k + s))
 		// movements before the snapshot (after the previous one)
@@ -612,7 +622,13 @@ func GenStakingScenario(t *rapid.T, st *Stats) (*Scenario, stakeInfo) {
 		}
 		w.SkipTo(snapH)
 		b := &Block{}
-		switch rapid.IntRange(0, 5).Draw(t, "snapKind") {
+		snapKind := rapid.IntRange(0, 5).Draw(t, "snapKind")
+		if snapH < era.V202 {
+			// before 2.0.2 an ungraded snapshot height and an out-of-band SPR are registered findings
+			// (C08/snapshot-norates, C11/band-early-return): plain graded snapshot blocks there
+			snapKind = 5
+		}
+		switch snapKind {
 		case 0, 2: // snapshot height without rates: most recent earlier rates are used
 			info.Unrated = true
 		case 1: // an asset is zeroed by the band rule at the snapshot block
